@@ -120,6 +120,20 @@ def streams(rng, tier):
     for _ in range(n // 2):
         s = "".join(chr(rng.randrange(256)) for _ in range(rng.randrange(0, 40)))
         for e in ("parse_email.bytes", "Metadata.from_email.bytes", "ELFFile"): add("arbitrary-bytes", e, s)
+    # the same malformed (ASCII) inputs through the models whose failure points the theorems of Properties/C11.v prove unreachable:
+    # the model answers a value or the documented-error token, so an escaping exception on the implementation side shows as a disagreement
+    ASCII_MUT = [chr(c) for c in range(32, 127)] + ["\t", "\n", "\r", "\x0b", "\x0c"]
+    def amut(s): return gen.mutate(rng, s, ASCII_MUT) if rng.random() < 0.7 else s
+    for _ in range(n):
+        out.append(Case("model-malformed", "v.parse", [amut(gen.spell(rng, gen.rand_v(rng)))]))
+        out.append(Case("model-malformed", "v.canon", [rng.choice("TF"), amut(gen.spell(rng, gen.rand_v(rng)))]))
+        out.append(Case("model-malformed", "sp.parse", [amut(gen_spec.spec_string(rng)[0])]))
+        out.append(Case("model-malformed", "sp.contains", [gen_spec.spec_string(rng)[0], rng.choice("NTF"), amut(gen.spell(rng, gen.rand_v(rng)))]))
+        out.append(Case("model-malformed", "n.name", [amut(rng.choice(gen_misc.NAMES))]))
+        fn = "%s-%s%s-%s.whl" % (rng.choice(gen_misc.NAMES).replace("-", "_"), gen.vstr(gen.rand_v(rng, 0.1)), rng.choice(["", "-1", "-12abc", "-x"]), gen_misc.tag(rng))
+        out.append(Case("model-malformed", "f.wheel", [amut(fn)]))
+        out.append(Case("model-malformed", "f.sdist", [amut("%s-%s%s" % (rng.choice(gen_misc.NAMES), gen.vstr(gen.rand_v(rng, 0.1)), rng.choice([".tar.gz", ".zip"])))]))
+        out.append(Case("model-malformed", "l.canon", [amut(license_expr(rng))]))
     # digit-like characters: str.isdigit() / isdecimal() / int() / \d disagree on them
     DIGITLIKE = ["²", "³", "①", "١", "１", "৪", "𝟙", "⁰"]
     for _ in range(n):
